@@ -6,6 +6,7 @@ Open Scope Z_scope.
 
 Section Proofs.
   Variable o : nat -> bool.
+  Variable oserr : bool.
   Variable resolve : al -> Z -> option Z.
   Variable dt_ok : Z -> bool.
   Variable wfail : Z -> Z -> bool.
@@ -35,9 +36,10 @@ Section Proofs.
   Proof. intros s. unfold fcall. destruct (o (rk s)); reflexivity. Qed.
   Lemma same_when b m : same_img m -> same_img (when b m).
   Proof. intros H. destruct b; [exact H|apply same_ret]. Qed.
-  Lemma same_seek_tell f cur target w0 : same_img (seek_tell o f cur target w0).
+  Lemma same_seek_tell f cur target w0 : same_img (seek_tell o oserr f cur target w0).
   Proof.
     intros s. unfold seek_tell. destruct (o (rk s)); [|reflexivity].
+    destruct oserr; [|reflexivity]. cbn [negb].
     set (s1 := mkRs (rimg s) (S (rk s)) (rlog s)). change (rimg s) with (rimg s1).
     apply same_bind; [apply same_fcall|]. intros _.
     destruct (cur =? target); [apply same_ret|].
@@ -115,7 +117,7 @@ Section Proofs.
     apply same_bind; [apply same_fcall|]. intros _. apply same_write_exts.
   Qed.
 
-  Lemma frames_analyze_body K sm od : frames K (analyze_body o scale nslabs exts D K sm od).
+  Lemma frames_analyze_body K sm od : frames K (analyze_body o oserr scale nslabs exts D K sm od).
   Proof.
     unfold analyze_body.
     apply frames_bind; [apply frames_same, same_open_dest|]. intros _.
@@ -146,7 +148,7 @@ Section Proofs.
   Qed.
 
   Lemma analyze_core_final K od s :
-    rimg (snd (analyze_core o dt_ok wfail scale nslabs exts D K od s)) = harm K (rimg s).
+    rimg (snd (analyze_core o oserr dt_ok wfail scale nslabs exts D K od s)) = harm K (rimg s).
   Proof.
     unfold analyze_core. unfold bind at 1. cbn [mod_img fst snd].
     set (s0 := mkRs (harm K (rimg s)) (rk s) (rlog s)).
@@ -162,7 +164,7 @@ Section Proofs.
                                         (if has_slope K then slope (ih i1) else SNan)
                                         (if has_inter K then inter (ih i1) else SNan)))
                            (fun _ => fail EWriter)
-                 else finally (analyze_body o scale nslabs exts D K
+                 else finally (analyze_body o oserr scale nslabs exts D K
                                  (is_nan (if has_slope K then slope (ih i1) else SNan) &&
                                   is_nan (if has_inter K then inter (ih i1) else SNan)) (dt (ih i1)))
                               (with_hdr (restore K (off (ih i0)) (dt (ih i0))
@@ -180,7 +182,7 @@ Section Proofs.
         pose proof (frames_analyze_body K
                       (is_nan (if has_slope K then slope (ih i1) else SNan) &&
                        is_nan (if has_inter K then inter (ih i1) else SNan)) (dt (ih i1)) s1) as HF.
-        destruct (analyze_body _ _ _ _ _ _ _ _ s1) as [r s2]. cbn [snd rimg] in *.
+        destruct (analyze_body _ _ _ _ _ _ _ _ _ s1) as [r s2]. cbn [snd rimg] in *.
         apply restore_back; try assumption. eapply Pk_trans; [exact HP|exact HF]. }
     destruct od as [d|].
     - destruct (dt_ok d).
@@ -196,19 +198,19 @@ Section Proofs.
     end.
 
   Lemma nifti_save_final K od s :
-    rimg (snd (nifti_save o resolve dt_ok wfail scale nslabs exts D K od s)) = expected_n K (rimg s).
+    rimg (snd (nifti_save o oserr resolve dt_ok wfail scale nslabs exts D K od s)) = expected_n K (rimg s).
   Proof.
     unfold nifti_save, expected_n. unfold bind at 1. cbn [get_img].
     destruct (alias (rimg s)) as [a|] eqn:Ea.
     - destruct (resolve a (data (rimg s))) as [r|]; [|reflexivity].
       unfold bind at 1. cbn [mod_img]. unfold finally.
-      match goal with |- context [analyze_core _ _ _ _ _ _ _ _ _ ?x] =>
-        pose proof (analyze_core_final K od x) as H; destruct (analyze_core o dt_ok wfail scale nslabs exts D K od x) as [rr s2] end.
+      match goal with |- context [analyze_core _ _ _ _ _ _ _ _ _ _ ?x] =>
+        pose proof (analyze_core_final K od x) as H; destruct (analyze_core o oserr dt_ok wfail scale nslabs exts D K od x) as [rr s2] end.
       cbn [snd rimg] in *. rewrite H. unfold harm.
       destruct (rimg s) as [[o0 d0 s0 n0 m0] al0 da0 a0]. cbn in *. subst al0. destruct (nifti K); reflexivity.
     - unfold finally.
       pose proof (analyze_core_final K od s) as H.
-      destruct (analyze_core o dt_ok wfail scale nslabs exts D K od s) as [rr s2].
+      destruct (analyze_core o oserr dt_ok wfail scale nslabs exts D K od s) as [rr s2].
       cbn [snd rimg] in *. rewrite H. unfold harm.
       destruct (rimg s) as [[o0 d0 s0 n0 m0] al0 da0 a0]. destruct (nifti K); reflexivity.
   Qed.
@@ -219,7 +221,7 @@ Section Proofs.
     apply same_bind; [apply same_open_dest|]. intros _. apply same_with_close, same_writes.
   Qed.
 
-  Lemma same_mgh_save K : same_img (mgh_save o nslabs D K).
+  Lemma same_mgh_save K : same_img (mgh_save o oserr nslabs D K).
   Proof.
     unfold mgh_save. apply same_bind; [apply same_get|]. intros i.
     apply same_bind; [apply same_open_dest|]. intros _. apply same_with_close.
@@ -230,27 +232,27 @@ Section Proofs.
     apply same_bind; [apply same_fcall|]. intros _. apply same_fcall.
   Qed.
 
-  Lemma same_cifti_save K od : same_img (cifti_save o resolve dt_ok wfail scale nslabs exts D K od).
+  Lemma same_cifti_save K od : same_img (cifti_save o oserr resolve dt_ok wfail scale nslabs exts D K od).
   Proof.
     intros s. unfold cifti_save. unfold bind. cbn [get_img].
     destruct (negb (dt_ok _)); [reflexivity|].
-    destruct (nifti_save _ _ _ _ _ _ _ _ _ _ _) as [r s']. reflexivity.
+    destruct (nifti_save _ _ _ _ _ _ _ _ _ _ _ _) as [r s']. reflexivity.
   Qed.
 
   (* the state after ANY run of save — whatever the oracle, whatever the outcome — is a
      function of the initial state alone *)
   Lemma save_final K od s :
-    rimg (snd (save o resolve dt_ok wfail scale nslabs exts nmat D K od s)) = expected resolve K (rimg s).
+    rimg (snd (save o oserr resolve dt_ok wfail scale nslabs exts nmat D K od s)) = expected resolve K (rimg s).
   Proof.
     unfold save, expected. destruct (fam K).
     - unfold bind.
       destruct (nifti K) eqn:En.
       + pose proof (nifti_save_final K od s) as H. unfold expected_n in H.
-        destruct (nifti_save _ _ _ _ _ _ _ _ _ _ s) as [[u|e] s']; cbn [snd] in *.
+        destruct (nifti_save _ _ _ _ _ _ _ _ _ _ _ s) as [[u|e] s']; cbn [snd] in *.
         * rewrite same_mat_save. exact H.
         * exact H.
       + pose proof (analyze_core_final K od s) as H. unfold harm in H. rewrite En in H.
-        destruct (analyze_core _ _ _ _ _ _ _ _ _ s) as [[u|e] s']; cbn [snd] in *.
+        destruct (analyze_core _ _ _ _ _ _ _ _ _ _ s) as [[u|e] s']; cbn [snd] in *.
         * rewrite same_mat_save. exact H.
         * exact H.
     - apply same_mgh_save.
@@ -274,15 +276,15 @@ Proof.
 Qed.
 
 (* every run — any oracle, any outcome, any pending alias — ends in the initial state *)
-Lemma preserved o resolve dt_ok wfail scale nslabs exts nmat D K od i :
+Lemma preserved o oserr resolve dt_ok wfail scale nslabs exts nmat D K od i :
   harmonised K i ->
-  rimg (snd (run_save o resolve dt_ok wfail scale nslabs exts nmat D K od i)) = i.
+  rimg (snd (run_save o oserr resolve dt_ok wfail scale nslabs exts nmat D K od i)) = i.
 Proof. intros Hh. unfold run_save. rewrite save_final. cbn. now apply expected_id. Qed.
 
 (* a save from the state any earlier run left behind = a save from the original state *)
-Lemma retry_same o o2 resolve dt_ok wfail scale nslabs exts nmat D K od od2 i :
+Lemma retry_same o o2 oserr oserr2 resolve dt_ok wfail scale nslabs exts nmat D K od od2 i :
   harmonised K i ->
-  let i1 := rimg (snd (run_save o resolve dt_ok wfail scale nslabs exts nmat D K od i)) in
-  run_save o2 resolve dt_ok wfail scale nslabs exts nmat D K od2 i1 =
-  run_save o2 resolve dt_ok wfail scale nslabs exts nmat D K od2 i.
+  let i1 := rimg (snd (run_save o oserr resolve dt_ok wfail scale nslabs exts nmat D K od i)) in
+  run_save o2 oserr2 resolve dt_ok wfail scale nslabs exts nmat D K od2 i1 =
+  run_save o2 oserr2 resolve dt_ok wfail scale nslabs exts nmat D K od2 i.
 Proof. intros Hh i1. subst i1. now rewrite preserved. Qed.
